@@ -109,6 +109,7 @@ def run(c):
         c.violation("encoding crashed (%s): %s" % (reqs[kx], ans[kx][:160]), "enc-crash", {"stream": "enc", "request": reqs[kx], "stderr": se})
     bykey = {}
     gens = {}
+    rs_model = []
     for i, (codec, m, k, n, L, mode) in enumerate(meta):
         a = ans[i]
         if a.startswith(("CRASH", "SKIPPED")):
@@ -137,11 +138,7 @@ def run(c):
             if key not in gens:
                 gens[key] = canonical_generator(F, k, n)
             want = rs_expected(F, gens[key], sym[:k], L)
-            if sym[k:] != want:
-                bad = next(j for j in range(n - k) if sym[k + j] != want[j])
-                c.violation("codec %d m=%d k=%d n=%d mode=%d: repair ESI %d is %s, the canonical generator gives %s" % (
-                            codec, m, k, n, mode, k + bad, Y[k + bad], "".join("%02x" % b for b in want[bad])), "rs-not-canonical",
-                            {"stream": "enc", "request": reqs[i], "esi": k + bad})
+            rs_model.append((i, "G %d %d %d %d %s" % (m, k, n, L, ".".join(Y[:k])), ".".join(Y[k:]), ".".join("".join("%02x" % b for b in v) for v in want)))
         else:
             r = n - k
             H = [[int(x) for x in row.split(",")] for row in d["H"].split(":", 1)[1].split("/")]
@@ -157,6 +154,27 @@ def run(c):
             for ri, row in enumerate(H):
                 if ri not in row or len(set(row)) != len(row) or any((x != ri and x < r and x > ri) for x in row):
                     c.proof_failed.append({"premise": "matrix row %d is not staircase-shaped" % ri, "request": reqs[i]}); break
+    # ---- Reed-Solomon: the extracted Coq model (RSEnc.rs_repairs = product by the canonical generator of RSCanon.v,
+    # proved systematic, MDS and the unique Vandermonde-derived generator) decides; the python oracle cross-checks the model
+    try:
+        mexe = vlib.ocaml_model()
+        rc, mout, _ = vlib.sh([mexe], input="\n".join(x[1] for x in rs_model) + "\n", timeout=3000)
+        ml = mout.splitlines()
+        for j, (i, line, c_rep, py_rep) in enumerate(rs_model):
+            mo = ml[j][2:].strip() if j < len(ml) else "?"
+            codec, m, k, n, L, mode = meta[i]
+            if mo != py_rep:
+                c.proof_failed.append({"oracle_disagreement": "extracted model vs python canonical generator", "request": line[:300], "model": mo[:300], "python": py_rep[:300]})
+                break
+            if c_rep != mo:
+                cr, mr = c_rep.split("."), mo.split(".")
+                bad = next((x for x in range(min(len(cr), len(mr))) if cr[x] != mr[x]), 0)
+                c.violation("codec %d m=%d k=%d n=%d mode=%d: repair ESI %d is %s, the canonical generator gives %s" % (
+                            codec, m, k, n, mode, k + bad, cr[bad] if bad < len(cr) else "?", mr[bad] if bad < len(mr) else "?"), "rs-not-canonical",
+                            {"stream": "enc", "request": reqs[i], "esi": k + bad, "model_request": line[:2000]})
+        c.cov["traces_validated_against_impl"] = len(rs_model)
+    except vlib.BuildError as e:
+        c.proof_failed.append({"model_build": str(e)[-1500:]})
     # byte compatibility codec 1 vs codec 2 (m=8): same seed, same k, n, L
     pairs = {}
     for i, (codec, m, k, n, L, mode) in enumerate(meta):
@@ -169,9 +187,8 @@ def run(c):
             c.violation("codec 1 and codec 2 (m=8) disagree for k=%d n=%d L=%d" % key[:3], "rs-byte-compat", {"key": list(key)})
     c.cov["evaluations"] = len(reqs)
     c.cov["distinct_nontrivial"] = len(set(reqs))
-    c.cov["traces_validated_against_impl"] = 0
     c.cov["rule"] = ("encoder sessions: RS GF(2^4) (k, n) shapes (all 105 in thorough), RS GF(2^8) boundary and random shapes on both codecs with equal payloads, LDPC random parameters; "
                      "modes: NULL output slots, dirty caller buffers, every symbol built twice, decreasing ESI order; symbol lengths around the unroll boundaries; every request non-trivial")
     c.cov["samples"] = [reqs[0], reqs[len(reqs) // 2], reqs[-1]]
-    c.cov["partial"] = "the Reed-Solomon half (product by the canonical Vandermonde generator) is decided by the independent python oracle, not by a theorem"
-    c.trusted = vlib.BASE_TRUST + ["tools/props/C06.py canonical_generator: independent implementation of G = V_n V_k^-1 over GF(2)[x]/(p) with points 0, 1, x, x^2, ..."]
+    c.cov["partial"] = "the C encoders' own generator construction (invert_vdm / matmul) is not modelled: the C output is compared with the proved canonical model on every request"
+    c.trusted = vlib.BASE_TRUST + ["RSEnc.v/RSCanon.v hand-written spec of the canonical code, extracted (ExtrOcamlBasic) and run on the C encoder's inputs; tools/props/C06.py canonical_generator (Gauss-Jordan inversion of the Vandermonde matrix) cross-checks the model"]
